@@ -1,6 +1,7 @@
 """C05 - unicast messages reach exactly the current owner, once, in order."""
 import json
 import os
+import signal
 import re
 import shutil
 import tempfile
@@ -469,6 +470,60 @@ class Scenario(object):
                         c.owed.append(by_tid[tid])
             c.mark = len(c.log)
 
+    def send_and_exit(self):
+        """Disconnection of the sender: a fresh connection writes a burst (signal, call without and with reply
+        expectation) to a live recipient's unique name in one write and closes its socket at once.  The sender has read
+        everything the bus sent it and the bus has no reason to write to it, so neither side can see an error before
+        the burst is read: every message must reach the recipient, in order, whether or not its sender still exists when
+        it is dispatched."""
+        rng = self.rng
+        cands = [c for c in self.live() if not c.slow]
+        if not cands:
+            return
+        for j in range(rng.randint(1, 3)):
+            R = rng.choice(cands)
+            try:
+                S = client.connect(self.daemon.sock, self.clock)
+            except (client.Closed, client.Timeout, OSError):
+                return
+            S.barrier()
+            kinds = [rng.choice(["signal", "call-noreply", "call"]) for _ in range(rng.randint(2, 6))]
+            if "call" not in kinds:
+                kinds[rng.randrange(len(kinds))] = "call"
+            tag = b"EXIT-%d-%d-" % (id(self) & 0xFFFF, j)
+            burst = b""
+            for n, k in enumerate(kinds):
+                _, d = S.build(4 if k == "signal" else 1, path=b"/x", iface=b"com.example.Exit", member=b"M%d" % n, dest=R.unique,
+                               sig=b"s", body=[tag + b"%d" % n], flags=1 if k == "call-noreply" else 0, order=rng.choice("lB"))
+                burst += d
+            stop = rng.random() < 0.5
+            if stop:
+                os.kill(self.daemon.pid, signal.SIGSTOP)      # both the burst and the EOF are there when the bus reads next
+            try:
+                S.send_bytes(burst)
+                S.close()
+            finally:
+                if stop:
+                    os.kill(self.daemon.pid, signal.SIGCONT)
+            self.steps.append("send-and-exit: %s wrote %s to %s and closed%s" % (S.unique.decode(), kinds, R.unique.decode(),
+                                                                                  " (daemon stopped meanwhile)" if stop else ""))
+            self.wait_gone([S.unique])
+            self.barrier(R)
+            self.barrier(R)
+            R.pump()
+            got = []
+            for rec in R.log:
+                b = rec.msg.body
+                if b and isinstance(b[0], bytes) and b[0].startswith(tag) and rec.msg.known().get(7) == S.unique:
+                    got.append(int(b[0][len(tag):]))
+            self.part.count("send-and-exit-bursts")
+            self.part.count("send-and-exit-messages", len(kinds))
+            if got != list(range(len(kinds))):
+                missing = [kinds[n] for n in range(len(kinds)) if n not in got]
+                self.violation("lost:sender-closed-after-writing:%s" % ",".join(sorted(set(missing)) or ["order"]),
+                               "a connection wrote %s to %s in one write and closed its socket; the recipient read messages %r of "
+                               "0..%d" % (kinds, R.unique.decode(), got, len(kinds) - 1))
+
     # -- the whole scenario -----------------------------------------------------------------
     def run(self):
         rng = self.rng
@@ -494,6 +549,8 @@ class Scenario(object):
                 cl = []
             share = total // nrounds if self.variant == "plain" or rnd > 0 else int(total * 0.6)
             self.round(rnd, share, cl)
+        if self.daemon.alive() and not self.limits:
+            self.send_and_exit()
         for c in self.live():
             c.view.frames = [r.msg for r in c.log]
             c.view.last_serial = c.serial
@@ -640,6 +697,7 @@ def run(tier, seed, replay=None, scale=1.0):
     for k in ("call:no-reply", "call", "signal", "return", "error"):
         r.require("addressed+eavesdrop-rule:" + k, need(60))
     r.require("scenarios-with-slow-readers", need(100))
+    r.require("send-and-exit-bursts", need(100))
     r.require("scenarios-with-a-socket-closed-in-mid-stream", need(60))
     r.require("driver-calls-counted", need(5000))
     r.assumptions = ["'owner at the moment the bus processes the message' is read off the recipient's own NameAcquired/NameLost "
